@@ -202,6 +202,12 @@ def gen_hostile(rng, i):
         a = {"name": "MGDA", "epsilon": [0.0, 1e-3][int(rng.integers(2))], "max_iters": [1, 5, 20, 100, 500][int(rng.integers(5))]}
     else:
         a = {"name": "CAGrad", "c": float(np.round(rng.uniform(1.0, 3.0), 2))}
+    if a["name"] in ("UPGrad", "DualProj") and rng.random() < 0.15:
+        # an integer-typed preference vector, e.g. torch.tensor([1, 2, 0]) (accepted by the library)
+        a["pref"] = [float(x) for x in rng.integers(0, 5, size=m)]
+        if not any(a["pref"]):
+            a["pref"][0] = 1.0
+        a["pref_dtype"] = "int64"
     if a["name"] == "MGDA" and rng.random() < 0.5:
         # MGDA has no scale parameter at all: its sub-optimality bound 8 s^2 / (iterations + 2) must hold at every magnitude
         J = J * 10.0 ** rng.uniform(-8, 8) / max(M.smax(J), 1e-300)
